@@ -70,6 +70,9 @@ type params struct {
 	// Stray: an executable goimports lies about outside $PATH, where `go install`
 	// leaves it ($GOBIN, $GOPATH/bin or ~/go/bin): it does not make the tool present
 	Stray string `json:"stray_goimports,omitempty"`
+	// EnvSensitive: the tools are scripts started through `env`: a command given
+	// an environment of its own that lacks PATH cannot start (exit 127)
+	EnvSensitive bool `json:"env_sensitive,omitempty"`
 }
 
 type c20 struct{}
@@ -154,6 +157,7 @@ func (c20) Generate(env *kernel.Env, r *kernel.Rand, index int) any {
 	if r.Chance(1, 5) {
 		p.Stray = kernel.Pick(r, []string{"gobin", "gopath", "home"})
 	}
+	p.EnvSensitive = r.Chance(1, 3)
 	p.Chatty = map[string]bool{}
 	for _, t := range toolNames {
 		if r.Chance(1, 4) {
@@ -433,6 +437,24 @@ func (c20) Execute(env *kernel.Env, raw json.RawMessage, ch *kernel.Choices) *ke
 	verifsim.ExecDurationHook = func(name string, args []string) time.Duration {
 		tool, _, _ := w.classify(name, args)
 		return time.Duration(p.SlowMs[tool]) * time.Millisecond
+	}
+	if p.EnvSensitive {
+		verifsim.ExecEnvHook = func(name string, envv []string) error {
+			if envv == nil {
+				return nil
+			}
+			for _, kv := range envv {
+				if strings.HasPrefix(kv, "PATH=") {
+					return nil
+				}
+			}
+			if tool, _, _ := w.classify(name, nil); tool != "" && p.World[tool] != missing {
+				out.Fault("tool_started_without_path")
+				return realExitError()
+			}
+			return nil
+		}
+		defer func() { verifsim.ExecEnvHook = nil }()
 	}
 	verifsim.ExecStderrHook = func(name string, args []string) []byte {
 		if tool, _, _ := w.classify(name, args); tool != "" && p.Chatty[tool] && p.World[tool] != missing {
